@@ -326,10 +326,64 @@ def run_case(case, tmp):
     return out, p, rig.spy
 
 
+MARK_SEPARATOR = "; "   # the documented separator of successive marks (tags_impl.MARK_SEPARATOR)
+
+
+def expected_rows(case):
+    """The 'archived values' of the property, derived ONLY from what was set on the tags (never from what
+    archive() returned): per data row the time, the current value of every tag with a column (the simulated value
+    while simulating) and, for the Mark tag, the mark texts set since the previous line of the file, joined by the
+    Mark separator.  The header line is a line of the file too: as the code is, it evaluates the tags like a row,
+    so marks set before on_start belong to the header line and are not expected in a data row."""
+    tags = case["tags"]
+    vals = {i: None for i, t in enumerate(tags) if t[0] == "p"}
+    sims: dict[int, object] = {}
+    marks = {i: [] for i, t in enumerate(tags) if t[0] == "m"}
+    clock, exists, ready, rows = 0, False, False, []
+    for op in case["ops"]:
+        if op[0] == "start":
+            if not exists:
+                for m in marks.values():
+                    m.clear()
+            exists = ready = True
+        elif op[0] == "row":
+            clock += 1
+            if not ready:
+                continue
+            cells = [time_str(clock)]
+            for i, t in enumerate(tags):
+                if t[0] == "p":
+                    cells.append(sims[i] if i in sims else vals[i])
+                elif t[0] == "m":
+                    cells.append(MARK_SEPARATOR.join(marks[i]))
+                    marks[i].clear()
+            rows.append(cells)
+        elif op[0] == "set":
+            vals[op[1]] = op[2]
+        elif op[0] == "sim":
+            sims[op[1]] = op[2]
+        elif op[0] == "stopsim":
+            sims.pop(op[1], None)
+        elif op[0] == "mark":
+            marks[op[1]].append(op[2])
+    return rows
+
+
+def cell_matches(cell: str, want) -> bool:
+    if want is None:
+        return cell == ""
+    if isinstance(want, (int, float)) and not isinstance(want, bool):
+        try:
+            return float(cell) == want   # harness values are multiples of 1/32: exact at 5 decimals
+        except ValueError:
+            return False
+    return cell == want
+
+
 def oracle_archive(case, tmp) -> list[Failure]:
-    """The property, stated over the real file only: rows have the header's columns; the file read back with the
-    same dialect gives the values the tags' archive() returned, unchanged."""
-    _, p, spy = run_case(case, tmp)
+    """The property, stated over the real file and the values that were set on the tags: every data row has the
+    header's columns; the file read back with the same dialect gives the tag values / mark texts unchanged."""
+    _, p, _ = run_case(case, tmp)
     with open(p, "r", newline="", encoding="utf-8") as f:
         rows = list(csv.reader(f, delimiter=",", quoting=csv.QUOTE_NONE, escapechar="\\"))
     fails = []
@@ -341,13 +395,23 @@ def oracle_archive(case, tmp) -> list[Failure]:
             fails.append(Failure("row-column-count-differs-from-header", case,
                                  f"row {i} has {len(r)} columns, header has {len(header)}: {r!r} vs {header!r}"))
             break
-    expected = [[t] + [v for v in vals if v is not None] for kind, t, vals in spy if kind == "row"]
-    if rows[1:] != expected:
-        k = next((i for i in range(max(len(expected), len(rows) - 1))
-                  if i >= len(expected) or i + 1 >= len(rows) or rows[i + 1] != expected[i]), 0)
-        fails.append(Failure("archive-readback-differs", case,
-                             f"data row {k}: read back {rows[k + 1] if k + 1 < len(rows) else None!r}, "
-                             f"archived {expected[k] if k < len(expected) else None!r}"))
+    expected = expected_rows(case)
+    if len(rows) - 1 != len(expected):
+        fails.append(Failure("archive-row-count-differs", case,
+                             f"{len(rows) - 1} data rows in the file, {len(expected)} rows were written"))
+    for k, (got, want) in enumerate(zip(rows[1:], expected)):
+        if len(got) != len(want):
+            if not fails:
+                fails.append(Failure("row-column-count-differs-from-header", case,
+                                     f"data row {k} has {len(got)} columns, {len(want)} tags have a column (+time)"))
+            break
+        bad = [j for j, (c, w) in enumerate(zip(got, want)) if not cell_matches(c, w)]
+        if bad:
+            j = bad[0]
+            fails.append(Failure("archived-value-differs-from-tag-value", case,
+                                 f"data row {k}, column {j} ({header[j] if j < len(header) else '?'!r}): read back "
+                                 f"{got[j]!r}, the tag held {want[j]!r}"))
+            break
     return fails
 
 
@@ -430,6 +494,9 @@ def _run(ctx: Check, tmp: str) -> int:
         "(as the csv documentation requires); ArchiverTag.read_last_run_archive returns the raw text",
         "CPython csv writer/reader and text-file line splitting are modelled for this dialect and validated differentially",
         "tag classes are the ones in the tree: archive() is None for ArchiverTag only, and then always",
+        "oracle: expected cells come from the values SET on the tags (numbers compared numerically, texts exactly, "
+        "marks joined by '; '), never from archive()'s return value; marks set before on_start belong to the "
+        "header line (which evaluates the tags like a row) and are not expected in a data row",
         "float tag values are multiples of 1/32 in the harness so that '%0.5f' is exact",
     ]
     return ctx.finish(search=lambda c: c.monitor(gen_archiver_cases(c), lambda x: oracle_archive(x, tmp)))
